@@ -81,15 +81,18 @@ struct Twin {
 
 string do_pathport(const vector<string> &a) {
   if (a.size() < 3) return "bad-args";
-  Twin t[2];
+  Twin t[3];
   t[0].setup(a[1]);
   t[1].setup(a[1]);
+  t[2].setup(a[1]);
   c06::Trace tr;
   for (size_t k = 2; k < a.size(); k++) {
     vector<uint8_t> d = vh::unhex(a[k]);
     string o0 = t[0].deliver(c06::POISON[0], d);
     string o1 = t[1].deliver(c06::POISON[1], d);
-    tr.add(o0, o1);
+    string o2;
+    { c06::PrevMode pm; o2 = t[2].deliver(c06::POISON[2], d); }
+    tr.add3(o0, o1, o2);
   }
   return tr.result();
 }
